@@ -103,7 +103,7 @@ func (g *G) standardSetup(nClasses, nProjects, nBatches, nBaskets int) world {
 func runMix(c Cfg) *Result {
 	g := NewG(c, chain.Options{GenesisTime: T0})
 	g.standardSetup(1+g.R.Intn(2), 1+g.R.Intn(2), 1+g.R.Intn(2), 1+g.R.Intn(2))
-	g.blocks(5+g.R.Intn(9), 2, 8, mixOps)
+	g.blocks(5+g.R.Intn(8), 2, 7, mixOps)
 	return g.Finish()
 }
 
@@ -129,6 +129,23 @@ func label(rate string) string {
 		return fmt.Sprintf("%d-decimals", len(rate)-2)
 	}
 	return rate
+}
+
+func opFeePoolSend(g *G) bool {
+	v := g.V()
+	pool := v.Bank[monitor.KeyFeePool]
+	ds := sortedKeys(pool)
+	if len(ds) == 0 {
+		return false
+	}
+	d := ds[g.R.Intn(len(ds))]
+	amt := new(big.Int).Quo(new(big.Int).Add(pool[d], big.NewInt(1)), big.NewInt(2))
+	note := "gov: send half of the fee pool"
+	if g.bad() {
+		amt, note = new(big.Int).Add(pool[d], big.NewInt(1)), "gov: send more than the fee pool holds"
+	}
+	g.Do(g.App.MsgGovSendFromFeePool(g.user(), sdk.NewCoins(sdk.NewCoin(d, sdk.NewIntFromBigInt(amt)))), note)
+	return true
 }
 
 func opDenomChurn(g *G) bool {
@@ -194,7 +211,7 @@ func opBigProduct(g *G) bool {
 
 var marketOps = []wop{
 	{20, opSell, "sell"}, {15, opUpdateSell, "update"}, {6, opCancelSell, "cancel"}, {36, opBuy, "buy"}, {3, opBuyMissing, "buy-gone"},
-	{6, opFeeParams, "fees"}, {5, opDenomChurn, "denoms"}, {3, opSend, "send"}, {1, opGov, "gov"},
+	{6, opFeeParams, "fees"}, {5, opDenomChurn, "denoms"}, {3, opSend, "send"}, {1, opGov, "gov"}, {3, opFeePoolSend, "pool"},
 }
 
 func runMarket(c Cfg) *Result {
@@ -216,7 +233,7 @@ func runMarket(c Cfg) *Result {
 		g.bump("rich-accounts(10^40)")
 		ops = append(append([]wop{}, marketOps...), wop{14, opBigProduct, "big"})
 	}
-	g.blocks(5+g.R.Intn(9), 3, 8, ops)
+	g.blocks(5+g.R.Intn(7), 2, 7, ops)
 	return g.Finish()
 }
 
@@ -355,4 +372,3 @@ func runExpiry(c Cfg) *Result {
 
 func ptr(t time.Time) *time.Time { return &t }
 
-var _ = sdk.NewInt
